@@ -160,8 +160,8 @@ def control_override_forms(ctx):
     """Columns that would replace the generated ref / nodeset of a control or bind (body::ref, control::ref, body:ref, body::nodeset, bind::nodeset, bind::ref), on every kind
     of row: whatever the converter does with them (it refuses them), no control or bind may end up pointing anywhere but at its own node."""
     k = 0
-    for col in ("body::ref", "control::ref", "body::nodeset", "bind::nodeset", "bind::ref"):
-        for val in ("/data/other", "/data/nowhere"):
+    for col in ("body::ref", "control::ref", "body::nodeset", "bind::nodeset", "bind::ref", "instance::tag", "instance::nodeset", "instance::ref"):
+        for val in (("/data/other", "/data/nowhere") if not col.startswith("instance") else ("household", "other")):  # instance::tag: a custom attribute called 'tag', never the node's name
             for rt in ROW_TYPES:
                 k += 1
                 if not ctx.mine(k):
@@ -365,6 +365,34 @@ def flat_forms(ctx):
             continue
         for key, what in invariants.c02_closure(p):
             ctx.viol(f"flat-setting:{key}", f"[flat=yes, same name in two groups={same}] {what}", common.witness(f, klass="flat"))
+    # ... and names that only meet after being lifted through two or three levels of groups (cousins: visit1/notes1/comment and visit2/notes2/comment)
+    for i in range(24):
+        depth = 2 + i % 2
+        same = i % 3 != 2
+        mid = i % 4 < 2  # the shared name sits at the bottom / one level above the bottom
+
+        def branch(b):
+            leaf = [("text", "comment" if same else f"comment{b}", {"label": "C"}), ("text", f"own{b}", {"label": "O"})]
+            node = leaf
+            for d in range(depth, 0, -1):
+                extra = [("integer", "comment" if (same and mid and d == depth) else f"n{b}{d}", {"label": "N"})] if d == depth and mid and not same else []
+                node = [("begin group", f"v{b}_{d}", {"label": f"V{b}{d}"}, node + extra)]
+            return node[0]
+        f = gen.simple_form([branch(1), branch(2)], settings={"flat": ["yes", "true", "1"][i % 3]})
+        o = drive.convert_form(f)
+        ctx.case(sig=f"flat-deep|{depth}|{same}|{mid}")
+        ctx.ctr("flat_forms")
+        if not o.ok:
+            ctx.ctr("flat_rejected")
+            if not same and o.exc_is_pyxform:
+                ctx.viol("flat-setting:valid-form-refused", f"[flat=yes, depth {depth}, all names different] {o.brief()[:200]}", common.witness(f, klass="flat"))
+            continue
+        try:
+            p = xf.Parsed(o.xform)
+        except xf.XFError:
+            continue
+        for key, what in invariants.c02_closure(p):
+            ctx.viol(f"flat-setting:{key}", f"[flat=yes, the same name in groups {depth} levels down in two branches={same}] {what}", common.witness(f, klass="flat"))
 
 
 def api_histories(ctx):
